@@ -41,5 +41,10 @@ Qed.
 Lemma gen_loader_stateless : loader_stateless_okb gen_loader_state = true /\ loader_reach_okb gen_loader_reach = true.
 Proof. split; vm_compute; reflexivity. Qed.
 
+(* the eight comparison closures and the helpers they share are, statement for statement, the audited ones from which
+   eval's comparison cases are transcribed *)
+Lemma gen_cmp_closures_ok : cmp_closures_okb gen_cmp_closures = true.
+Proof. vm_compute. reflexivity. Qed.
+
 Definition compile_gen := compile gen_tables.
 Definition eval_gen := eval gen_combinators.
